@@ -112,7 +112,7 @@ func (d *driver) rawRequest(proto string, req []byte) (observed, error) {
 	if r.err != nil {
 		o.End, o.Err = "reset", r.err.Error()
 	}
-	if l, n := binary.Uvarint(r.b); n > 0 && int(l) <= len(r.b)-n {
+	if l, n := binary.Uvarint(r.b); n > 0 && l <= uint64(len(r.b)-n) {
 		var resp shrexpb.Response
 		if resp.Unmarshal(r.b[n:n+int(l)]) == nil {
 			switch resp.Status {
